@@ -171,7 +171,8 @@ def reference_einsum(m):
     for k, lab in enumerate(labels):
         assert all(x is not None for x in lab), (k, lab)
     sub = ",".join("".join(l) for l in labels) + "->" + "".join(free + out_cov + out_con)
-    arr = np.einsum(sub, *[np.array(n.array, copy=True) for n in m.nodes])
+    # integer operands are widened: the reference must not share a wrap-around of small integer types with the library
+    arr = np.einsum(sub, *[np.array(n.array, dtype=np.int64 if n.array.dtype.kind in "iub" else None, copy=True) for n in m.nodes])
     return arr, len(free), len(out_cov), len(out_con), sub
 
 
@@ -347,9 +348,16 @@ def post_tensor_product(ctx, call):
     ctx.judge("tensor.product", bool(ok), [a, b], what="tensor_product differs from the outer product with covariant indices first", op="tensor_product")
 
 
+def post_diagram_copy(ctx, call):
+    """A copied diagram starts with the history of the original (and from then on has its own)."""
+    if call.exc is None and call.result is not None:
+        call.result.__dict__["_vmon_hist"] = list(hist(call.args[0]))
+
+
 def install(ctx):
     import geometer.base as B
 
+    core.wrap_method(B.TensorDiagram, "copy", post_diagram_copy)
     core.wrap_method(B.TensorDiagram, "add_node", post_add_node)
     core.wrap_method(B.TensorDiagram, "add_edge", post_add_edge, pre=pre_add_edge)
     core.wrap_method(B.TensorDiagram, "calculate", post_calculate)
@@ -447,6 +455,51 @@ def g_programs(ctx, rng, i):
             d.calculate()  # evaluating twice gives the same tensor
     except ValueError:
         pass  # incompatible collection shapes: the monitor compares with the reference
+
+
+def g_special_programs(ctx, rng, i):
+    """Programs outside the shapes the geometry code builds: nodes of rank 9-10 (index numbers >= 8), diagrams made of small-integer
+    tensors only (full contractions of Levi-Civita tensors: values up to n!), copies of diagrams that are extended independently."""
+    from geometer.base import LeviCivitaTensor, Tensor, TensorDiagram
+    from geometer.exceptions import TensorComputationError
+
+    kind = i % 3
+    if kind == 0:
+        rank = 9 + i % 2
+        ncov = int(rng.integers(1, 4))
+        cov = sorted(set([rank - 1] + rng.choice(rank, size=ncov, replace=False).tolist()))
+        t = Tensor(gen.coords(rng, (2,) * rank, 3, "int"), covariant=cov)
+        d = TensorDiagram()
+        try:
+            for _ in range(int(rng.integers(1, 3))):
+                d.add_edge(t, Tensor(gen.coords(rng, (2,), 3, "int"), covariant=False))
+            d.add_edge(Tensor(gen.coords(rng, (2,), 3, "int")), t)
+        except TensorComputationError:
+            pass
+        d.calculate()
+    elif kind == 1:
+        n = [3, 4, 5, 6][(i // 3) % 4]
+        e1, e2 = LeviCivitaTensor(n), LeviCivitaTensor(n, False)
+        k = n if (i // 12) % 2 == 0 else n - 1
+        TensorDiagram(*[(e1, e2)] * k).calculate()
+        v = Tensor(np.array(gen.coords(rng, (n,), 100, "int"), dtype=np.int8), covariant=True)
+        w = Tensor(np.array(gen.coords(rng, (n,), 100, "int"), dtype=np.int8), covariant=False)
+        TensorDiagram((v, w)).calculate()
+    else:
+        dim = 3
+        a = Tensor(gen.coords(rng, (dim, dim), 3, "int"), covariant=[0, 1])
+        b = Tensor(gen.coords(rng, (dim, dim), 3, "int"), covariant=False)
+        c = Tensor(gen.coords(rng, (dim,), 3, "int"), covariant=False)
+        d = TensorDiagram((a, b))
+        d.calculate()
+        d2 = d.copy()
+        d2.add_edge(a, b)
+        d2.calculate()
+        d.calculate()  # the original is unaffected by what happened to its copy
+        d3 = d.copy()
+        d3.add_node(c)
+        d3.calculate()
+        d.calculate()
 
 
 def g_operators(ctx, rng, i):
@@ -569,6 +622,7 @@ def _n_eps(tier):
 
 GROUPS = [
     {"name": "programs", "fn": g_programs, "quick": 4000, "thorough": 60000},
+    {"name": "special_programs", "fn": g_special_programs, "quick": 96, "thorough": 960},
     {"name": "operators", "fn": g_operators, "quick": 600, "thorough": 6000},
     {"name": "epsilon", "fn": g_epsilon, "quick": 7, "thorough": 8},
     {"name": "delta", "fn": g_delta, "quick": 13, "thorough": 15},
